@@ -487,7 +487,7 @@ pub fn judge(target: &str, data: &[u8]) -> (Value, &'static str, Result<(), Fail
         "adsr_ops" => {
             let c = adsr_case(data);
             let m = mask_for(&[("C01", adsr::C01), ("C02", adsr::C02), ("C03", adsr::C03)]);
-            let v = adsr::run_case(&c, m, 60_000, &mut st).map(|_| ());
+            let v = adsr::run_case(&c, m, 20_000, &mut st).map(|_| ());
             (serde_json::to_value(&c).unwrap(), "adsr_history", v)
         }
         "quant_ops" => {
@@ -513,7 +513,7 @@ pub fn judge(target: &str, data: &[u8]) -> (Value, &'static str, Result<(), Fail
         }
         "glide_ops" => {
             let c = glide_case(data);
-            let v = glide::run_c13(&c, 40_000, &mut st).map(|_| ());
+            let v = glide::run_c13(&c, 20_000, &mut st).map(|_| ());
             (serde_json::to_value(&c).unwrap(), "glide_c13", v)
         }
         "ribbon_ops" => {
